@@ -27,8 +27,8 @@ from ..refs import c03_inp_text as U
 
 ID = 'C03'
 LEVEL = 'exploration'
-CASES = {'quick': 400, 'thorough': 7000}
-SHRINK_BUDGET = {'quick': 35, 'thorough': 240}
+CASES = {'quick': 400, 'thorough': 5000}
+SHRINK_BUDGET = {'quick': 25, 'thorough': 240}
 CASE_TIMEOUT = 40
 TECHNIQUE = ('property-based differential testing (Hypothesis): one generated model run by EPANET 2.2 on an independently '
              'written INP text, by EpanetSimulator in two unit systems, by EpanetSimulator on WNTR\'s reading of that '
@@ -39,39 +39,59 @@ RULE = ('Generated network specs of vlib.netgen restricted to the common feature
         'demand and reservoir-head patterns, pattern start, start clock time, demand multiplier, DD and PDD) plus 0-3 '
         'controlled links, each driven by exactly one of: simple time controls, simple clock-time controls, a pair of '
         'tank-level controls, rules on SYSTEM TIME / CLOCKTIME, rules on TANK LEVEL (with ELSE, AND/OR, priorities). '
-        'Units U1, U2 != U1, UT are drawn uniformly from the ten EPANET flow units (PDD: all from one pressure family '
-        'with Pmin/Preq on the 0.01 grid of that unit); ten enumerated cases put a fixed rich network through every unit. '
-        'Non-trivial = at least 3 compared report steps, at least one non-pipe element or tank, and relation 1 decided '
-        'on all three pairs; distinct = SHA-1 of the case.')
+        'Units U1, U2 != U1, UT are drawn from the ten EPANET flow units and tallied (PDD: all from one pressure family '
+        'with Pmin/Preq on the 0.01 grid of that unit); ten enumerated cases put a fixed network with every element type, '
+        'a cycling level control, a clock-time valve setting and a timed pipe through every unit as U1. Four cases in '
+        'five keep every pattern period on the hydraulic grid, three in four have report step = hydraulic step, one '
+        'in four keeps 2-point pump curves. WNTRSimulator runs on 80 % (quick) / all (thorough) of the cases. '
+        'Non-trivial = at least 3 report steps compared in every executed relation, at least one non-pipe element or '
+        'tank, and relation 1 decided on all three pairs; distinct = SHA-1 of the case.')
 ASSUMPTIONS = [
     'common feature set only; excluded by construction (counted as excl:* tags): per-junction PDD overrides, head curves '
     'with more than 3 points (WNTR documents a regression fit where EPANET interpolates), control of CV pipes (EPANET '
-    'error 207), pump speed settings, status and setting controls on one valve, closed links that isolate junctions',
-    'EPANET gives no defined solution for demand junctions cut off from every source (ill-conditioned, heads of -1e6): '
-    'from the first report step with an isolated junction on nothing is compared (cut:isolation)',
+    'error 207), pump speed settings, status and setting controls on one valve, closed or one-way links and control '
+    'targets that would cut junctions off from every source, tanks starting within 20 % of a limit, rules where a '
+    'pattern period begins inside a hydraulic step',
     'never generated because the engines legitimately differ: two commands for one link at one instant, "=" on time in '
     'rules, control instants off the 900 s grid (EPANET truncates hh:mm:ss read through floating-point hours) or off '
     'the rule grid, rule step not dividing the hydraulic step, rules together with tank-level simple controls, '
-    'control instants at t = 0, thresholds at a tank\'s initial/min/max level',
-    'a run that either engine reports as not converged / unbalanced is inconclusive',
-    'reservoir "pressure" is not compared between WNTR (0) and EPANET (head minus base head)',
+    'control instants at t = 0, thresholds within 0.05 m of a tank\'s initial level',
+    'EPANET states that are no reference end the comparison from that report step on (cut:* tags, counted): a junction '
+    'cut off from every source (heads of -1e6), a tank level that zig-zags without any status change (explicit Euler '
+    'overshoot amplifies every difference), a tank on one of its limits (WNTR vs EPANET only: EPANET shuts the links and '
+    'clamps, ignores a time-to-drain that rounds to 0 s), an event between hydraulic instants when report step > '
+    'hydraulic step (EPANET then steps from the event, WNTR returns to the grid), a state off EPANET\'s own PDA curve, an '
+    'open power pump without flow, link statuses that differ for a hydraulic or level-band reason',
+    'a run that either engine reports as not converged / unbalanced / error 110 is inconclusive; EPANET refusing the '
+    'INP file that WNTR wrote (error 200) is a violation',
+    'reservoir "pressure" is not compared between WNTR (0) and EPANET (head minus base head); links next to a tank are '
+    'not "driven by the clock only" (EPANET loses a CLOSED control on a link it has temporarily closed itself)',
+    'WNTR results that break an element law in a way that belongs to C02 get their own buckets '
+    '(w_vs_e1/pump_curve_2pt, w_vs_e1/power_pump_reverse_flow)',
 ]
 TOLERANCES = {
-    'same_engine_rel_to_step_scale': '2e-3 of (max head - min head, >= 1 m) resp. max|q| (+1e-4 m, +1e-7 m3/s): EPANET\'s '
-                                     'own constants are short (AFDperCFS 1.9837, IMGDperCFS 0.5382; calibrated <= 5e-4), '
-                                     'float32 binary output, %f curve fields',
-    'w_vs_e_head': '5e-3 m + 1e-3*Hscale (thresholds of wntr/tests/test_sim_performance) + tank term',
-    'w_vs_e_flow': '1e-5 m3/s + 1e-3*Qscale + low-flow term',
-    'tank_term': '2 s * max|q_T|/A_T per tank-driven event (event times are whole seconds in both engines) + 1e-3 of the '
-                 'level travelled so far',
-    'low_flow_term': 'WNTR smooths the H-W law below q2 = 4e-4 m3/s (documented): a pipe inside the band may carry a '
-                     'different flow; the band width is allowed on flows whenever some open pipe is inside the band',
+    'same_engine': 'head/pressure 1e-4 m + 2e-3*(max head - min head, >= 1 m); flow/demand Qtol(2.83e-6 m3/s) + 2e-3*max|q|: '
+                   'EPANET\'s own constants are short (AFDperCFS 1.9837, IMGDperCFS 0.5382; calibrated <= 5e-4 of scale), '
+                   'float32 binary output',
+    'same_engine_tank_term': '5e-4 of the level a tank has travelled (integrated 1.2e-4 flow differences) + 1 s of inflow per '
+                             'event between hydraulic instants; propagated to flows with the pipe law (class Allow)',
+    'w_vs_e_head': '5e-3 m (convergence) + 1e-5*Hscale (float32) + 5e-4*largest head change across one open link '
+                   '(EPANET ACCURACY bounds the last flow change, residual 2e-4 seen in PDA) + 1e-3*power-pump head gain '
+                   '(gamma 9802 vs 9810 N/m3) + 1e-3*largest minor-loss head (g 32.2 ft/s2 vs 9.81 m/s2) + tank term + '
+                   'sum over open pipes inside WNTR\'s low-flow band of K*q2^1.852',
+    'w_vs_e_flow': '1e-5 m3/s + 1e-3*max|q| (thresholds of wntr/tests/test_sim_performance.py) + q2 = 4e-4 m3/s for a pipe '
+                   'inside WNTR\'s documented H-W smoothing band + H-W sensitivity to 2*head allowance, tightened by '
+                   'continuity; PDD demand: + full demand * ((w + 0.05 m)/(Preq - Pmin))^exponent (WNTR smoothing band 0.05 m)',
+    'w_vs_e_tank_term': '2 s of inflow per event between hydraulic instants (event times are whole seconds, one engine '
+                        'truncates, one rounds up) + time integral of the allowed net-inflow mismatch',
+    'status_bands': 'level within 2 s of flow (+2 mm) of a limit or control level; CV/pump/valve flow within 10*Qtol',
     'epanet_accuracy': 'ACCURACY 1e-5 (the smallest value EPANET 2.2 honours), TRIALS 200 for E1/E2/R/T; WNTR TOL 1e-8',
 }
 LEVEL_TEXT = ('Exploration: a few hundred (quick) to several thousand (thorough) random models of the common feature set, '
               'each in three of the ten unit systems; no exhaustiveness claim.')
 LEVEL_NOTE = ('Trusted base: libepanet 2.2 and the ctypes wrapper that reaches it, refs/c03_inp_text.py (own unit table and '
-              'INP syntax), the spec builder of vlib.spec. Differences inside the stated ambiguity bands are not judged.')
+              'INP syntax), refs/c03_epanet_direct.py, the spec builder of vlib.spec. Differences inside the stated bands and '
+              'everything after a cut are not judged; WNTR vs EPANET on tanks at their limits belongs to C06.')
 
 FEAT = {'nj': (2, 8), 'tanks': (0, 2), 'extra_res': (0, 1), 'pumps': True, 'valves': True, 'cvs': True,
         'closed': True, 'leaks': False, 'vol_curves': True, 'tank_links_special': True, 'booster': True, 'wild': 0.0,
@@ -191,10 +211,16 @@ def _drivers(draw, net):
     cands += [(v['name'], 'valve', v) for v in net['valves']]
     n = draw(st.sampled_from([0, 1, 1, 2, 2, 3]))
     mode = draw(st.sampled_from(['controls', 'controls', 'rules']))
+    ex0 = []
+    if mode == 'rules' and (o['pat'] % o['hyd'] != 0 or o['pattern_start'] % o['hyd'] != 0):
+        # EPANET cuts its hydraulic step at pattern changes and evaluates rules at the end of every (cut) step, also
+        # off the rule grid: no rules where a pattern period begins inside a hydraulic step
+        mode = 'controls'
+        ex0.append('excl:rules_with_pattern_change_inside_hyd_step')
     grid = 900 if mode == 'controls' else _lcm(900, o['rule'])
     nslots = o['duration'] // grid
     closed = _base_closed(net)
-    picked, ex = [], []
+    picked, ex = [], ex0
     for _ in range(min(n, len(cands))):
         c = cands[draw(st.integers(0, len(cands) - 1))]
         if c[0] in [x[0] for x in picked]:
@@ -344,33 +370,32 @@ def strategy(tier='quick'):
 
 # a fixed network with every element type of the common feature set, put through all ten units
 _FIXED = {
-    'opts': {'duration': 6 * 3600, 'hyd': 1800, 'pat': 3600, 'rep': 1800, 'rule': 900, 'pattern_start': 3600,
+    'opts': {'duration': 8 * 3600, 'hyd': 1800, 'pat': 3600, 'rep': 1800, 'rule': 900, 'pattern_start': 3600,
              'start_clocktime': 6 * 3600, 'dm': 1.2, 'demand_model': 'DD', 'pmin': 0.0, 'preq': 0.07, 'pexp': 0.5,
              'hw_approx': 'default'},
-    'patterns': {'P1': [1.0, 1.4, 0.6, 1.2, 0.8], 'P2': [1.0, 1.02, 0.98]},
-    'curves': {'HC1': {'type': 'HEAD', 'pts': [[0.0, 60.0], [0.02, 45.0], [0.04, 10.0]]},
+    'patterns': {'P1': [1.0, 1.4, 0.6, 1.2, 0.8], 'P2': [1.0, 1.05, 0.95]},
+    'curves': {'HC1': {'type': 'HEAD', 'pts': [[0.0, 66.0], [0.03, 52.0], [0.06, 12.0]]},
                'HC2': {'type': 'HEAD', 'pts': [[0.01, 12.0]]},
-               'VC1': {'type': 'VOLUME', 'pts': [[0.0, 0.0], [2.0, 60.0], [4.0, 150.0], [7.0, 240.0]]}},
+               'VC1': {'type': 'VOLUME', 'pts': [[0.0, 0.0], [2.0, 180.0], [4.0, 420.0], [7.0, 700.0]]}},
     'junctions': [{'name': 'J1', 'elev': 5.0, 'demands': [[0.002, 'P1', None]]},
                   {'name': 'J2', 'elev': 8.0, 'demands': [[0.003, None, 'dom'], [0.001, 'P1', 'ind']]},
                   {'name': 'J3', 'elev': 12.0, 'demands': [[0.002, 'P1', None]]},
                   {'name': 'J4', 'elev': 10.0, 'demands': [[0.004, None, None]]},
-                  {'name': 'J5', 'elev': 3.0, 'demands': [[0.001, 'P1', None]]},
-                  {'name': 'J6', 'elev': 15.0, 'demands': [[0.002, None, None]]}],
-    'tanks': [{'name': 'T1', 'elev': 50.0, 'init': 3.0, 'min': 0.5, 'max': 6.0, 'diam': 10.0, 'min_vol': 0.0, 'vol_curve': None},
-              {'name': 'T2', 'elev': 48.0, 'init': 3.5, 'min': 0.0, 'max': 6.0, 'diam': 8.0, 'min_vol': 0.0, 'vol_curve': 'VC1'}],
+                  {'name': 'J5', 'elev': 3.0, 'demands': [[0.003, 'P1', None]]},
+                  {'name': 'J6', 'elev': 15.0, 'demands': [[0.002, None, None]]},
+                  {'name': 'J7', 'elev': 6.0, 'demands': [[0.002, None, None]]}],
+    'tanks': [{'name': 'T1', 'elev': 50.0, 'init': 3.0, 'min': 0.5, 'max': 6.0, 'diam': 12.0, 'min_vol': 0.0, 'vol_curve': 'VC1'}],
     'reservoirs': [{'name': 'R1', 'head': 4.0, 'pat': 'P2'}],
     'pipes': [{'name': 'L1', 'a': 'J1', 'b': 'J2', 'len': 400.0, 'diam': 0.3, 'C': 120.0, 'minor': 0.5, 'status': 'OPEN', 'cv': False},
               {'name': 'L2', 'a': 'J2', 'b': 'J3', 'len': 300.0, 'diam': 0.25, 'C': 100.0, 'minor': 0.0, 'status': 'OPEN', 'cv': False},
               {'name': 'L3', 'a': 'J3', 'b': 'T1', 'len': 200.0, 'diam': 0.3, 'C': 130.0, 'minor': 2.0, 'status': 'OPEN', 'cv': False},
               {'name': 'L4', 'a': 'J2', 'b': 'J4', 'len': 500.0, 'diam': 0.2, 'C': 110.0, 'minor': 0.0, 'status': 'OPEN', 'cv': True},
               {'name': 'L5', 'a': 'J1', 'b': 'J4', 'len': 600.0, 'diam': 0.2, 'C': 90.0, 'minor': 0.0, 'status': 'OPEN', 'cv': False},
-              {'name': 'L6', 'a': 'T2', 'b': 'J4', 'len': 250.0, 'diam': 0.3, 'C': 140.0, 'minor': 0.0, 'status': 'OPEN', 'cv': False},
               {'name': 'L7', 'a': 'J3', 'b': 'J4', 'len': 350.0, 'diam': 0.15, 'C': 100.0, 'minor': 0.0, 'status': 'CLOSED', 'cv': False}],
     'pumps': [{'name': 'PU1', 'a': 'R1', 'b': 'J1', 'type': 'HEAD', 'power': None, 'curve': 'HC1', 'status': 'OPEN'},
               {'name': 'PU2', 'a': 'J4', 'b': 'J6', 'type': 'HEAD', 'power': None, 'curve': 'HC2', 'status': 'OPEN'}],
     'valves': [{'name': 'V1', 'a': 'J1', 'b': 'J5', 'type': 'PRV', 'diam': 0.2, 'minor': 0.0, 'setting': 25.0, 'status': 'ACTIVE'},
-               {'name': 'V2', 'a': 'J2', 'b': 'J5', 'type': 'TCV', 'diam': 0.2, 'minor': 0.0, 'setting': 50.0, 'status': 'ACTIVE'}],
+               {'name': 'V2', 'a': 'J2', 'b': 'J7', 'type': 'TCV', 'diam': 0.2, 'minor': 0.0, 'setting': 50.0, 'status': 'ACTIVE'}],
     'controls': [], 'profile': 'sane'}
 
 
@@ -388,8 +413,8 @@ def enumerate_cases(tier):
         others = [x for x in pool if x != u]
         controls = [{'kind': 'time', 'link': 'L7', 'value': 'OPEN', 'at': 2 * 3600 + 900, 'clock': False},
                     {'kind': 'time', 'link': 'V1', 'value': 20.0, 'at': 10 * 3600, 'clock': True},
-                    {'kind': 'level', 'link': 'PU1', 'value': 'CLOSED', 'tank': 'T1', 'op': 'above', 'thr': 3.4},
-                    {'kind': 'level', 'link': 'PU1', 'value': 'OPEN', 'tank': 'T1', 'op': 'below', 'thr': 2.6}]
+                    {'kind': 'level', 'link': 'PU1', 'value': 'CLOSED', 'tank': 'T1', 'op': 'above', 'thr': 3.3},
+                    {'kind': 'level', 'link': 'PU1', 'value': 'OPEN', 'tank': 'T1', 'op': 'below', 'thr': 3.1}]
         yield {'net': net, 'u1': u, 'u2': others[(i * 3) % len(others)], 'ut': others[(i * 3 + 1) % len(others)],
                'style': i % 2, 'controls': controls, 'rules': [], 'run_w': True, 'excluded': []}
 
@@ -571,6 +596,22 @@ def first_isolated_step(cx, A):
     return None
 
 
+def first_zigzag_step(cx, A, solved_times=()):
+    """first report step from which a tank level zig-zags (up-down-up by more than 0.1 m per step): the explicit tank
+    integration of both engines overshoots its equilibrium there (no link changes status meanwhile), every difference - EPANET's own short unit constants
+    included - is amplified from step to step, and no fixed allowance is sound"""
+    for k in range(2, len(A.times)):
+        for t in cx.tanks:
+            d1 = A.node['head'][t][k - 1] - A.node['head'][t][k - 2]
+            d2 = A.node['head'][t][k] - A.node['head'][t][k - 1]
+            same_status = all(A.link['status'][l][k - 2] == A.link['status'][l][k - 1] == A.link['status'][l][k]
+                              for l in cx.lnames)
+            quiet = not any(A.times[k - 2] < ts < A.times[k] and ts % cx.net['opts']['hyd'] != 0 for ts in solved_times)
+            if d1 * d2 < 0 and min(abs(d1), abs(d2)) > 0.1 and same_status and quiet:
+                return k - 1      # (a pump cycling on a level control also zig-zags, but with events in between)
+    return None
+
+
 def level_band(cx, A, k):
     """{tank: band} - two seconds of the tank's largest recent net flow, as level"""
     out = {}
@@ -702,6 +743,15 @@ def off_pda_curve(cx, X, k):
     return None
 
 
+def power_pump_stalled(cx, X, k):
+    """an open constant-power pump with (almost) no flow: P = rho g q dH has no finite head there and EPANET reports an
+    arbitrary one (seen: 150-250 m depending on the unit system, rho g q dH = 0.5 W for a 10 kW pump)"""
+    for name, a, b, kind, el in cx.links:
+        if kind == 'pump' and el['type'] == 'POWER' and X.link['status'][name][k] != 0 and abs(X.link['flowrate'][name][k]) < 1e-4:
+            return name
+    return None
+
+
 def events_between(solved_times, hyd, t0, t1):
     """indices into solved_times within [t0, t1] and the number of them that are not hydraulic instants"""
     idx = [i for i, ts in enumerate(solved_times) if t0 <= ts <= t1]
@@ -711,7 +761,7 @@ def events_between(solved_times, hyd, t0, t1):
 def compare_same_engine(cx, A, B, nsteps, b_binary_status, solved_times, tank_inflow, thr_events=(), tol_rel=2e-3):
     """relation 1: two EPANET runs of what must be one model.  -> (kind, ...)
 
-    heads/pressures within tol_rel*Hscale + 1e-4 m, flows/demands within tol_rel*Qscale + 1e-7 m3/s.  Tanks integrate the
+    heads/pressures within tol_rel*Hscale + 1e-4 m, flows/demands within tol_rel*Qscale + Qtol (2.8e-6 m3/s).  Tanks integrate the
     small flow differences that EPANET's own short unit constants cause (up to 1.2e-4 relative): a tank head may differ by
     5e-4 of the level it has travelled so far, plus 1 s of inflow per event between hydraulic instants (event times are
     whole seconds computed in file units); that head uncertainty is propagated to the flows with the pipe law.
@@ -750,7 +800,7 @@ def compare_same_engine(cx, A, B, nsteps, b_binary_status, solved_times, tank_in
                     slip[t] += 1.0 * nev * max(abs(tank_inflow[t][i]) for i in idx) / area
             tank_term = max(tank_term, 5e-4 * travel[t] + slip[t])
         w = 1e-4 + tol_rel * hs + tank_term
-        qbase = 1e-7 + tol_rel * qs
+        qbase = QTOL + tol_rel * qs      # below EPANET's own Qtol a flow is numerical noise (seen: +-5e-8 in a still network)
         dtol = {j: qbase for j in cx.junctions}
         ltol, ntol = al.flows(A, k, qbase, tank_term, {}, dtol)
         # inputs first (boundary heads, demands), then states, so that the first failing quantity names the root cause
@@ -770,6 +820,8 @@ def compare_same_engine(cx, A, B, nsteps, b_binary_status, solved_times, tank_in
                         return ('cut', 'value_band', k, worst)
                     if o['demand_model'] == 'PDD' and (off_pda_curve(cx, A, k) or off_pda_curve(cx, B, k)):
                         return ('cut', 'epanet_off_its_pda_curve', k, worst)
+                    if power_pump_stalled(cx, A, k) or power_pump_stalled(cx, B, k):
+                        return ('cut', 'power_pump_at_zero_flow', k, worst)
                     cls = cx.nkind[n] if table == 'node' else cx.lkind[n]
                     return ('fail', key, cls, 't=%d %s %s (%s): %.9g vs %.9g, |diff| %.3g = %.3g of the step scale %.6g '
                             '(allowance %.3g; tank term %.3g m)'
@@ -935,6 +987,8 @@ def compare_w(cx, E, W, nsteps, solved_times, tank_inflow, thr_events=()):
                 worst[wk] = max(worst[wk], d / (hs if wk == 'head' else qs))
                 if not d <= tol:
                     cls = cx.nkind[n] if table == 'node' else cx.lkind[n]
+                    if power_pump_stalled(cx, E, k):
+                        return ('cut', 'power_pump_at_zero_flow', k, worst)
                     if near_threshold(cx, E, W, k):
                         # a tank sits on one of its limits or on a control level: the engines handle the instant of
                         # reaching it differently (EPANET ignores a time-to-drain that rounds to 0 s and clamps)
@@ -1040,6 +1094,11 @@ def evaluate(case):
         return _epanet_failure(e, 'c03R_%d.inp' % pid, 'EpanetSimulator on the model read from the text (units %s)' % case['ut'], tags), diag
     if not R.ok:
         return inconclusive('EPANET run of the re-read model incomplete', tags), diag
+    for label, X in (('E1', E1), ('E2', E2), ('R', R)):
+        missing = [x for x in cx.nnames if x not in X.node['head']] + [x for x in cx.lnames if x not in X.link['flowrate']]
+        if missing:
+            return fail('missing_in_results/%s' % ('reader' if label == 'R' else 'epanetsim'),
+                        '%s: no result column for %s' % (label, missing[:5]), tags), diag
     # ------------------------------------------------------------------ isolation guard
     n = min(len(E1.times), len(E2.times), len(Tt.times), len(R.times))
     cut = first_isolated_step(cx, E1)
@@ -1048,6 +1107,10 @@ def evaluate(case):
         n = min(n, cut)
     if n == 0:
         return inconclusive('a junction is cut off from every source at t = 0 (no defined EPANET solution)', tags), diag
+    zz = first_zigzag_step(cx, E1, T.all_times)
+    if zz is not None and zz < n:
+        tags.append('cut:tank_zigzag')
+        n = zz
     thr_ev = threshold_events(cx, T)
     # ------------------------------------------------------------------ relation 1
     decided = 0
